@@ -645,6 +645,8 @@ impl<'a> Mutator<'a> {
                         Sc::I32 => Some(if rng.chance(1, 2) { Doc::Int(i32::MAX as u64 + 1) } else { Doc::Neg(i32::MIN as i64 - 1) }),
                         Sc::Char => Some(Doc::Str(rng.pick(&["", "ab", "漢字", "a\nb", "x\r\ny"]).to_string())),
                         Sc::U64 => Some(Doc::Neg(-1)),
+                        // finite, far beyond f32: rounds to an infinity, which is what an f32 holds then
+                        Sc::F32 => Some(Doc::Float(*rng.pick(&[1e39, -1e40, 1e300, f64::MAX]))),
                         _ => None,
                     };
                     if let Some(n) = new {
@@ -831,7 +833,15 @@ impl<'a> Mutator<'a> {
                             self.counts.tag += 1;
                             let v = rng.pick(variants);
                             let key = effective_key(&v.ident, &v.rename, *rename_all);
-                            *doc = match rng.below(3) {
+                            *doc = match rng.below(5) {
+                                // a string is the only kind a unit-only enum reads: not a list
+                                // holding the name, not the number a name spells
+                                3 => Doc::Seq(vec![Doc::Str(key.clone())]),
+                                4 => match key.parse::<i64>() {
+                                    Ok(n) if n >= 0 => Doc::Int(n as u64),
+                                    Ok(n) => Doc::Neg(n),
+                                    Err(_) => Doc::Int(7),
+                                },
                                 0 => Doc::Str(rng.pick(&["NoSuchVariant", "Énumération_inconnue_très_longue", "abcéx", " sideways ", "NoSuchVariant\t", "  x"]).to_string()),
                                 1 => Doc::Str(near_misses(&key, &v.ident, rng)),
                                 _ => Doc::Str(String::new()),
